@@ -46,7 +46,7 @@ BUILT = {
    note="Sampling over (field, occurrence, class); stalled peers and multi-gigabyte declarations are excluded as the property states.",
    tech="deterministic simulation with a byzantine reference peer (structure-aware mutation, cuts, noise) and process-level crash isolation"),
  "C19": dict(cat="exploration", ref="DESIGN.md §6 C19",
-   text="The real accept loop serves simulated connections carrying chosen peer addresses; an independent first-match model (net/netip) decides what each (rule list, address) pair must yield: OK and a complete session, or an @ERROR line followed by EOF. quick samples, thorough enumerates all 30784 rule lists of length 0..3 over the 31-rule pool against all 26 addresses.",
+   text="The real accept loop serves simulated connections carrying chosen peer addresses; an independent first-match model (net/netip) decides what each (rule list, address) pair must yield: OK and a complete session, or an @ERROR line followed by EOF. quick samples, thorough enumerates all 40495 rule lists of length 0..3 over the 34-rule pool against all 26 addresses.",
    note="Pure decision function: input/configuration-quantified; the simulated network is needed for arbitrary peer addresses.",
    tech="deterministic simulation (simulated listener with arbitrary peer addresses); bounded enumeration of the rule-pool product in the thorough tier"),
 
